@@ -21,7 +21,9 @@ VARIABLES req, stage, attrs, outcome, log, stale
 vars == <<req, stage, attrs, outcome, log, stale>>
 
 ScatKinds == {"sphere", "layered", "spheres_mie", "spheres_multisphere", "spheroid", "cylinder", "sphere_mielens"}
-DetKinds == {"square", "rect_aniso", "shifted_origin", "one_by_n", "points", "multichannel"}
+\* multichannel_permuted: two illumination channels whose wavelength, polarisation and scaling are
+\* given per channel as dictionaries, each listing the channels in its own order (none in the detector's)
+DetKinds == {"square", "rect_aniso", "shifted_origin", "one_by_n", "points", "multichannel", "multichannel_permuted"}
 Pols == {"x", "z24_3", "z24_8", "unnormalised", "unnormalised3"}   \* the last given with three components
 Alphas == {"zero", "one", "fraction", "negative"}
 Where == {"kw", "det", "both", "missing"}
@@ -30,7 +32,8 @@ OptKeys == <<"illum_wavelen", "medium_index", "illum_polarization">>
 Compatible(r) ==
    /\ (r.scat \in {"spheroid", "cylinder"} => r.pol = "x")                 \* T-matrix: x polarisation only
    /\ (r.scat = "sphere_mielens" => r.det # "points")                       \* lens theories: fixed detector z
-   /\ (r.det = "multichannel" => r.scat \in {"sphere", "layered", "spheres_mie"})
+   /\ (r.det \in {"multichannel", "multichannel_permuted"} => r.scat \in {"sphere", "layered", "spheres_mie"})
+   /\ (r.det = "multichannel_permuted" => r.pol = "x")      \* the per-channel polarisations are fixed by the harness
 
 Requests == {r \in [scat : ScatKinds, det : DetKinds, pol : Pols, alpha : Alphas,
                     wl : Where, mi : Where, po : Where] : Compatible(r)}
